@@ -717,3 +717,40 @@ Theorem c13_hypothetical_unvalidated_separators :
   (exists txt, passwd_after [colon_user] = Some txt /\ parse_users txt = None).
 Proof. exact hypothetical_unvalidated_separators. Qed.
 Print Assumptions c13_hypothetical_unvalidated_separators.
+
+(* c13_base_image_accounts_skipped.  Builds on a base image (contents.baseimage,
+   experimental; reachable through the Go API only — the YAML loader refuses
+   accounts and paths next to a base image).  buildImage guards the accounts
+   step with `Contents.BaseImage == nil`: goextract finds the `if` around the call
+   of mutateAccounts by shape and [accounts_skipped_with_base_image] says whether
+   its condition is that test (the proof uses its value: removing or changing the
+   guard breaks it).  With [build_image_b] = the pipeline with that guard:
+   - without a base image it IS the pipeline of c13_pipeline_order;
+   - WITH a base image the configured users and groups play no part at all: the
+     result is etc/apko.json followed by the declared path mutations on the tree as
+     it was, run-as is handed on UNRESOLVED, so etc/passwd / etc/group (the base
+     image's accounts) are kept verbatim unless a declared mutation names them and
+     no home directory is made — i.e. for such builds "the configured users and
+     groups are in the image" does NOT hold: they are silently dropped. *)
+Theorem c13_base_image_accounts_skipped :
+  accounts_skipped_with_base_image = true /\
+  (forall maxl f users groups ra muts,
+     build_image_b maxl false f users groups ra muts = build_image maxl f users groups ra muts) /\
+  (forall maxl f users groups ra muts,
+     build_image_b maxl true f users groups ra muts =
+     fdo f2 <- write_apko_config maxl f; fdo f3 <- mutate_paths maxl f2 muts; FOk (f3, ra)) /\
+  (forall maxl f users groups ra f' ra',
+     build_image_b maxl true f users groups ra [] = FOk (f', ra') -> ra' = ra /\ write_apko_config maxl f = FOk f').
+Proof.
+  split; [reflexivity|]. split; [exact build_image_b_false|]. split; [exact build_image_b_true | exact build_image_b_true_no_paths].
+Qed.
+Print Assumptions c13_base_image_accounts_skipped.
+(* non-vacuity: the configuration of c13_pipeline_example on a base image — the
+   passwd text stays the base's, app's home is NOT made, run-as stays the name *)
+Example c13_base_image_example :
+  let base := [mkNode KDir 493 0 0 "" "" [("etc", 1%nat)] ""; mkNode KDir 493 0 0 "" "" [("passwd", 2%nat)] "";
+               mkNode KFile 420 0 0 "" (write_users [mkUE "root" "x" 0 0 "root" "/root" "/bin/sh"]) [] ""] in
+  exists f', build_image_b 40 true base [mkCU "app" 1000 None "" ""] [mkCG "app" 1000 []] "app" [] = FOk (f', "app") /\
+    match gnode 40 f' etc_passwd with FOk n => Some (ndata n) | _ => None end = Some (write_users [mkUE "root" "x" 0 0 "root" "/root" "/bin/sh"]) /\
+    stat 40 f' (path_of "/home/app") = FNotExist /\ stat 40 f' (path_of "/etc/group") = FNotExist.
+Proof. eexists. split; [vm_compute; reflexivity|]. repeat split; vm_compute; reflexivity. Qed.
